@@ -160,13 +160,15 @@ TaskStart(n, w, ctxc) ==
   /\ ctxc => (ctxCancelled \/ ffTriggered)      \* allCancel() runs just before the FFCancel event
   /\ pc' = [pc EXCEPT ![n] = "running"]
   /\ slot' = [slot EXCEPT ![w] = n]
-  /\ UNCHANGED <<walk, registered, rootStarted, pendingStart, cancelCause, ready, cancelled, completion, result, ffTriggered,
+  \* what the task saw is remembered until it ends: a task that found the context cancelled starts no command ("dead")
+  /\ result' = [result EXCEPT ![n] = IF ctxc THEN "dead" ELSE "live"]
+  /\ UNCHANGED <<walk, registered, rootStarted, pendingStart, cancelCause, ready, cancelled, completion, ffTriggered,
                  ffCancelled, ctxCancelled, extCancelled, poolClosed, everCalled, lost, raced, retSize, snapped>>
 
 TaskEnd(n, r) ==
   /\ pc[n] = "running"
-  /\ \/ r = "ok"
-     \/ r = "fail" /\ n \in CanFail
+  /\ \/ r = "ok" /\ result[n] = "live"
+     \/ r = "fail" /\ n \in CanFail /\ result[n] = "live"
      \/ r = "canceled" /\ (ctxCancelled \/ ffTriggered)
   /\ pc' = [pc EXCEPT ![n] = "taskdone"]
   /\ result' = [result EXCEPT ![n] = r]
@@ -293,4 +295,17 @@ NotReturned == ~Returned
 TypeOK == /\ walk \in {"registering", "waiting", "returned_done", "returned_ctx"}
           /\ registered \subseteq Selected
           /\ \A n \in Nodes : ready[n] \in 0..1
+
+(* ------------------------------------------------------------------ refinement: Walker implements Executor *)
+\* the goroutines, channels, maps and flags above, seen as the abstract executor of Executor.tla
+AbsState == [n \in Nodes |->
+   CASE pc[n] = "running" /\ result[n] = "live" -> "running"
+     [] pc[n] = "running" /\ result[n] = "dead" -> "refused"
+     [] pc[n] \in {"taskdone", "returned", "finished"} /\ result[n] = "ok" -> "ok"
+     [] pc[n] \in {"taskdone", "returned", "finished"} /\ result[n] = "fail" -> "fail"
+     [] pc[n] \in {"taskdone", "returned", "finished"} /\ result[n] = "canceled" -> "dropped"
+     [] OTHER -> "waiting"]
+Abs == INSTANCE Executor WITH XNodes <- Nodes, XDeps <- Deps, XSelected <- Selected, XWorkers <- NumWorkers, XCanFail <- CanFail,
+                              XFailFast <- FailFast, state <- AbsState, stopped <- ctxCancelled
+Refines == Abs!Spec
 =============================================================================
